@@ -4,26 +4,28 @@ from props import gp_common
 
 THEOREMS = ["UrcuVerif.Gp.gp_guarantee", "UrcuVerif.Gp.gp_guarantee_after_return", "UrcuVerif.Gp.gp_litmus",
             "UrcuVerif.Gp.nested_only_outermost", "UrcuVerif.Gp.active_iff_in_section", "UrcuVerif.Gp.inv_step",
-            "UrcuVerif.Gp.run_reach"]
+            "UrcuVerif.Gp.run_reach",
+            "UrcuVerif.Qsbr.gp_guarantee_qsbr", "UrcuVerif.Qsbr.gp_guarantee_qsbr_after_return", "UrcuVerif.Qsbr.gp_litmus_qsbr",
+            "UrcuVerif.Qsbr.waited_reader_stays_old", "UrcuVerif.Qsbr.inv_step"]
 TRUSTED = ["Lean 4.33 kernel; axioms ⊆ {propext, Classical.choice, Quot.sound}",
            "x86-TSO abstract machine (FIFO store buffers, mfence/locked ops drain), sys_membarrier = forced fence on every thread between call and return",
            "model granularity: the abstract grace-period algorithm (Gp/Flip.lean); the event-level transliteration of the C text in Driver/Gp.lean maps each run of the real code to model labels (checked on explored schedules, not proved)",
            "harness runs are sequentially consistent (cooperative scheduler): store-buffer delays are quantified in the theorems only",
            "compiler barriers: presence/position checked as events, effect on the optimiser not modelled",
-           "qsbr and bp flavors: see Props/C01Qsbr (when present) — not covered by this model"]
+           "qsbr: Gp/Qsbr.lean + Props/C01Qsbr.lean (64-bit single-pass variant; counters do not wrap); bp flavor: same two-pass algorithm, its trace tie is not built yet"]
 OWN = {"gp", "litmus"}
 
 
 def run(chk):
     chk.assumptions = TRUSTED
     chk.cov["trusted_base"] = TRUSTED
-    chk.proof_part(["UrcuVerif.Props.C01", "drv_gp"], "UrcuVerif.Props.C01", THEOREMS,
-                   ["UrcuVerif.Gp", "UrcuVerif.Props.C01", "UrcuVerif.Machine"])
+    chk.proof_part(["UrcuVerif.Props.C01", "UrcuVerif.Props.C01Qsbr", "drv_gp"], ["UrcuVerif.Props.C01", "UrcuVerif.Props.C01Qsbr"], THEOREMS,
+                   ["UrcuVerif.Gp", "UrcuVerif.Props.C01", "UrcuVerif.Props.C01Qsbr", "UrcuVerif.Machine"])
     ok, log = gp_common.build()
     if not ok:
         chk.fail("build", {"theorem": "harness/scen/gp.c does not compile against /repo", "lean_error": log[-2000:]}, nofail=True)
         return
-    n = 40 if chk.tier == "quick" else 700
+    n = 30 if chk.tier == "quick" else 700
     fails = gp_common.suite(chk, n, "safety", OWN)
     gp_common.report(chk, fails, OWN, gp_common.search_own(chk, OWN, "safety", 300 if chk.tier == "quick" else 3000))
 
